@@ -896,6 +896,7 @@ func (sm *shardManagerImpl) broadcastShardChange(msgType string, shard history.C
 		sm.logger.Error("Failed to marshal shard message", tag.Error(err))
 		return
 	}
+	vhook.At("sm.broadcast.msg", "node", sm.GetNodeName(), "data", data)
 
 	// Use remoteNodeStates map to get list of nodes to send to
 	sm.remoteNodeStatesMu.RLock()
